@@ -428,3 +428,38 @@ func (m *Machine) Resurrect(rt *rapid.T, label string) bool {
 	m.Rewrite(e)
 	return true
 }
+
+// Migrate moves a value from one live key to another inside one window: key a gets the fresh value, then key b gets the
+// value a had. At every moment the values of different keys are distinct. The moved value is struck from what a (or any
+// other key) could go back to later, so that two keys never hold it at the same time.
+func (m *Machine) Migrate(rt *rapid.T, fresh []byte, label string) bool {
+	es := Entries(m.Model)
+	if len(es) < 2 {
+		return false
+	}
+	ai := gen.Uniform(rt, 0, len(es)-1, label+"a")
+	bi := (ai + 1 + gen.Uniform(rt, 0, len(es)-2, label+"b")) % len(es)
+	a, b := es[ai], es[bi]
+	moved := append([]byte(nil), a.Value...)
+	m.Logf("(a value moves from one key to another)")
+	m.Update(a.Key, fresh)
+	m.Update(b.Key, moved)
+	for k, ps := range m.Past {
+		if k == string(b.Key) {
+			continue
+		}
+		var keep [][]byte
+		for _, p := range ps {
+			if !bytes.Equal(p, moved) {
+				keep = append(keep, p)
+			}
+		}
+		m.Past[k] = keep
+	}
+	for k, e := range m.Graveyard {
+		if bytes.Equal(e.Value, moved) {
+			delete(m.Graveyard, k)
+		}
+	}
+	return true
+}
